@@ -16,7 +16,7 @@ Inductive reaches (g : cfg) : nat -> nat -> Prop :=
 (* the node a rewritten extra return becomes: `jal x0, __return__` *)
 Definition is_return_merge (n : pnode) : bool :=
   match n with
-  | PJumpLink i rd name _ => (inst_eqb (wv i) IJal && N.eqb (wv rd) 0 && str_eqb (wv name) «"__return__"»)%bool
+  | PJumpLink i rd name _ => (inst_eqb (wv i) IJal && N.eqb (wv rd) 0 && str_eqb (wv name) «"<return>"»)%bool
   | _ => false
   end.
 
